@@ -122,7 +122,8 @@ func ruleTxnDiscipline(e *Engine, r *Reporter) {
 				"runner "+strings.Join(st.RunWith, ","), "statement inside a transactional function does not run on the transaction (runner: ["+strings.Join(st.RunWith, ",")+"]); it would not be rolled back with the rest")
 		}
 		// exec points: ExecContext/Query* on builders of tf, pgx Exec, and helper calls that run statements
-		eachInstr(tf, false, func(in ssa.Instruction) {
+		// (closures of tf included: the body of a range-over-func loop is one)
+		eachInstr(tf, true, func(in ssa.Instruction) {
 			c, ok := in.(ssa.CallInstruction)
 			if !ok {
 				return
@@ -145,7 +146,7 @@ func ruleTxnDiscipline(e *Engine, r *Reporter) {
 			txParam := ""
 			for i, a := range c.Common().Args {
 				t := unwrap(a).Type()
-				if isTxType(t) || (i < len(g.Params) && isTxType(g.Params[i].Type())) {
+				if isTxType(t) || (i < len(g.Params) && isTxType(g.Params[i].Type())) || structCarriesTx(t) {
 					gotTx = true
 					if i < len(g.Params) {
 						txParam = paramName(g.Params[i])
@@ -193,7 +194,7 @@ func ruleTxnDiscipline(e *Engine, r *Reporter) {
 		okDefer := len(execs) > 0
 		var bad ssa.Instruction
 		for _, x := range execs {
-			if ok, _ := mustPass(tf, x.in, cutSpec{instr: isDeferRollback}); !ok {
+			if ok := e.guardedAnyLevel(x.in, cutSpec{instr: isDeferRollback}); !ok { // statements inside loop-body closures (range-over-func) are lifted to where the closure is created
 				okDefer = false
 				bad = x.in
 			}
@@ -264,7 +265,46 @@ func ruleTxnDiscipline(e *Engine, r *Reporter) {
 		if badRet != nil {
 			pos = e.instrPos(badRet)
 		}
-		r.Check(okCommit && nSucc > 0 && containsCall(tf, "Commit"), name+" | success only through a checked Commit", pos,
+		// a stage helper that receives the transaction and commits itself: tf forwards its verdict
+		stageCommits := false
+		if !containsCall(tf, "Commit") {
+			for _, rs := range returnSites(tf) {
+				ev := rs.errResult()
+				if ev == nil {
+					continue
+				}
+				var call *ssa.Call
+				switch x := unwrap(ev).(type) {
+				case *ssa.Call:
+					call = x
+				case *ssa.Extract:
+					call, _ = x.Tuple.(*ssa.Call)
+				}
+				if call == nil {
+					continue
+				}
+				g := staticCallee(call)
+				if g == nil || len(g.Blocks) == 0 || !containsCall(g, "Commit") {
+					continue
+				}
+				// inside the stage: every success return lies behind Commit()==nil
+				all, any := true, false
+				for _, grs := range returnSites(g) {
+					if !grs.isSuccess() {
+						continue
+					}
+					any = true
+					if ok, _ := mustPass(g, grs.At, cutSpec{edge: commitOK}); !ok {
+						all = false
+					}
+				}
+				if any && all {
+					stageCommits = true
+					nSucc++
+				}
+			}
+		}
+		r.Check(okCommit && nSucc > 0 && (containsCall(tf, "Commit") || stageCommits), name+" | success only through a checked Commit", pos,
 			fmt.Sprintf("%d success returns: each is before any statement or behind Commit()==nil", nSucc),
 			"a success return is reachable after a statement executed without passing a Commit whose error is checked")
 	}
@@ -514,4 +554,19 @@ func ruleCompositeKeyComplete(e *Engine, r *Reporter) {
 		r.Check(len(missing) == 0, fmt.Sprintf("%s | %s components", fname(fn), keyName), e.pos(fn.Pos()), fmt.Sprintf("reads all %d components", keyT.NumFields()),
 			fmt.Sprintf("handles the composite tuple key but ignores component(s) %v: tuples differing only there are treated as one (lost lock / lost existence check, so on_duplicate/on_missing is decided on the wrong row)", missing))
 	}
+}
+
+
+// structCarriesTx: a struct (or pointer to one) with a field of a transaction type.
+func structCarriesTx(t types.Type) bool {
+	st, ok := derefType(t).Underlying().(*types.Struct)
+	if !ok {
+		return false
+	}
+	for i := 0; i < st.NumFields(); i++ {
+		if isTxType(st.Field(i).Type()) {
+			return true
+		}
+	}
+	return false
 }
